@@ -153,9 +153,13 @@ def check(space, state):
                 if getattr(part, nm) is not None and getattr(sp, nm) is not None:
                     asserted += scale_invariant(V, [nm], part, sp, e)
 
+    expd = {}
+
     def cmp(name, obs, exp):
         nonlocal asserted
         asserted += 1
+        if exp is not None and obs is not None and hasattr(type(part), name) and np.ndim(exp) >= 1:
+            expd[name] = exp
         if exp is None or obs is None:
             if not (exp is None and obs is None):
                 V.append(viol(name + ":none", "%s: library %r, expected %r" % (name, obs, exp), output=name))
@@ -258,4 +262,9 @@ def check(space, state):
                 got = getattr(part, mname)
                 if got is not None and not (isinstance(got, float) and got != got):
                     V.append(viol(mname + ":empty", "%s with no valued respondents: %r" % (mname, got)))
+    # order-of-reads guard: the vector outputs read in REVERSE order on an untouched partition
+    if expd and kind != "strand":
+        from mc.common2d import reverse_read
+        fresh = Cube(tabulate(sch, data), transforms=transforms_for(cfg)).partitions[0]
+        asserted += reverse_read(V, fresh, expd)
     return Res(V, nontrivial, digest(space, state[1], state[2], *outs), asserted)
